@@ -820,6 +820,20 @@ void oracle_c10(Plan const& p, std::vector<u64> const& seg_calls, RunOut const& 
 
     for (auto const& c : out.ranks)
     {
+        if (!c.log_calls)
+        {
+            // volume runs keep no call records: the total must still be calls x numbers x cost
+            u64 total = 0;
+            for (auto const& st : c.stats) total += st.second.calls;
+            if (c.draws != total * per_call)
+            {
+                rep.fail("C10", "draws-per-call", key, fmt("rank %d drew %llu raw outputs for %llu calls, predictor says %llu each",
+                    c.rank, (unsigned long long) c.draws, (unsigned long long) total, (unsigned long long) per_call));
+                return;
+            }
+            continue;
+        }
+
         u64 prev = 0;
         for (auto const& r : c.calls)
         {
